@@ -15,6 +15,7 @@ func profC04() *RevProfile {
 	p.PSrcFault = 55
 	p.STPct = 60
 	p.CancelPct = 4
+	p.SoakPct = 8 // state an earlier validation may have left behind
 	return p
 }
 
@@ -58,6 +59,7 @@ func profC10() *RevProfile {
 	p.ConfigW = []int{70, 30, 0, 0}
 	p.PSrcFault = 45
 	p.CancelPct = 5
+	p.SoakPct = 8
 	p.CRLRich = true
 	p.DeltaPct = 60
 	p.STPct = 65
